@@ -179,6 +179,12 @@ pub fn run(tier: Tier) -> i32 {
         b.push(format!("-{}", c.unit));
         // a word cut at a line end: the tens word with a trailing hyphen
         b.push(format!("{}-", c.tens));
+        // symbols the current source tree mentions and the pinned one did not ('&', '%' ...), with the hundred word
+        let syms_new = vocab::new_symbol_literals(l);
+        if !syms_new.is_empty() {
+            b.push(c.hundred.clone());
+            b.extend(syms_new);
+        }
         let mut b2: Vec<String> = vec![];
         for w in b {
             if !b2.contains(&w) {
@@ -187,6 +193,13 @@ pub fn run(tier: Tier) -> i32 {
         }
         alphas.push(json!({"lang": l.code(), "sentence_and_expression_alphabet": b2}));
         total.merge(explore::all_sequences2(&b2, 4, |syms, acc| one_text(&ctx, acc, l, &lang, syms)));
+        // very large numbers (the digit form is longer than the words): pairs and triples of big-number words
+        let big = vocab::big_number_words(l, &lang);
+        total.merge(explore::all_sequences2(&big, 3, |syms, acc| {
+            if syms.len() >= 2 {
+                one_text(&ctx, acc, l, &lang, syms)
+            }
+        }));
         // the function words that sit next to numbers (articles, half, dozen, pair ...), depth 3 with one, unit, tens
         let mut fw: Vec<String> = vec![c.one.clone(), c.unit.clone(), c.tens.clone(), ",".to_string()];
         for w in vocab::function_words(l) {
